@@ -30,7 +30,8 @@ LEVEL = "model_checking"
 
 FD = world.TTY_FD
 PROBE_NAMES = ("probe_raw_body", "probe_nested_body", "probe_query_body", "probe_name_body",
-               "probe_colors_body", "probe_rw_body", "probe_cellsize_body", "probe_kitty_body", "_query_support")
+               "probe_colors_body", "probe_rw_body", "probe_cellsize_body", "probe_kitty_body", "_query_support",
+               "probe_raise_body")
 DA1 = b"\x1b[c"
 DA1_REPLY = b"\x1b[?62;4c"
 
@@ -173,6 +174,49 @@ RAW_ATTRS = world.default_attrs(canonical=False, echo=False, vmin=0)
 _PROBES = {}
 
 
+_URWID_SAVED = []
+
+
+def _urwid_input_probe():
+    """The library's urwid screen polling for input (UrwidImageScreen.get_available_raw_input, which
+    the library synchronizes so that it cannot swallow a query's reply).  urwid's own reader - the
+    base class method - is replaced by one that reads the virtual tty; the library's method is real."""
+    L = world.load_urwid()
+    base = L.urwid.raw_display.Screen
+    if not _URWID_SAVED:
+        _URWID_SAVED.append(base.get_available_raw_input)
+
+    def harness_reader(self):
+        tty = S.tty
+        if not tty.select([FD], [], [], 0)[0]:
+            return []
+        return list(tty.read(FD, 4096))
+
+    base.get_available_raw_input = harness_reader
+    class _Screen(L.urwid_mod.UrwidImageScreen):        # never initialised (no real terminal): nothing to close
+        def __del__(self):
+            pass
+
+    screen = object.__new__(_Screen)
+
+    def probe_urwid_input_body(tag):
+        data = screen.get_available_raw_input()
+        return ("urwid_input", data == [], bytes(data))
+
+    return probe_urwid_input_body
+
+
+def _urwid_restore():
+    if _URWID_SAVED:
+        world.load_urwid().urwid.raw_display.Screen.get_available_raw_input = _URWID_SAVED.pop()
+        _PROBES.clear()
+
+
+class ProbeError(Exception):
+    """Raised by the failing synchronized probe."""
+
+
+
 def probes(mod):
     """The lock_tty-decorated probes of one utils instance (created once per process)."""
     p = _PROBES.get(mod)
@@ -215,6 +259,12 @@ def probes(mod):
         r = mod.get_fg_bg_colors.__wrapped__(hex=True)
         return ("colors", r == ("#ffffff", "#000000"), r)
 
+    def probe_raise_body(tag):
+        # a synchronized call that fails: enters, touches the terminal, raises
+        old = S.begin_raw(tag)
+        S.finish_raw(tag, old)
+        raise ProbeError(tag)
+
     def probe_cellsize_body(tag):
         # ioctl reports no pixels: the real XTWINOPS + DA1 query; all three replies are this caller's
         r = mod.get_cell_size()
@@ -231,6 +281,9 @@ def probes(mod):
              name=probe_name_body, colors=probe_colors_body)
     # the same function object handed to lock_tty a second time (two components synchronizing the same
     # helper), and an already synchronized wrapper handed to it again: both results must be synchronized
+    p["raise"] = mod.lock_tty(probe_raise_body)
+    if mod is world.load().utils:
+        p["urwid_input"] = _urwid_input_probe()
     p["cellsize"] = probe_cellsize_body
     p["kitty"] = probe_kitty_body
     p["raw2"] = mod.lock_tty(probe_raw_body)
@@ -248,7 +301,10 @@ def run_prog(model, pid, prog, base, threads=()):
         kind = op[0]
         if kind == "probe":
             tag = base + i + 1
-            r = probes(mod)[op[1]](tag)
+            try:
+                r = probes(mod)[op[1]](tag)
+            except ProbeError:
+                r = ("raise", op[1] == "raise", "raised")       # the caller handles it and carries on
             S.results.append((tag, pid) + tuple(r))
         elif kind == "start":
             model.children[op[1]][0].start()
@@ -418,6 +474,10 @@ def harnesses(tier):
     # synchronized functions obtained by decorating one function object twice / a wrapper again
     add("threads-redecorated", [[P("raw")], [P("raw2")], [P("raw_ww")]], bound=(1, 2))
     add("start-redecorated", [[["start", 1]], [P("raw2")]], {"1": dict(prog=[P("raw2")])}, bound=(1, 2))
+    # an urwid input poll (UrwidImageScreen.get_available_raw_input) next to a query
+    add("threads-urwid-input", [[P("query")], [P("urwid_input")]], bound=(2, 2))
+    # a synchronized call that raises, then further synchronized calls of the same thread
+    add("threads-after-exception", [[P("raise"), P("raw")], [P("raw")]], bound=(2, 3))
     # get_cell_size's own query (three replies) next to another caller, replies slow and atomic
     add("threads-cell-size-replies", [[P("cellsize")], [P("name")]], replies=True, bound=(1, 2))
     # KittyImage.is_supported() (its own lock block, reply read in two steps) after the lock migration
@@ -543,6 +603,7 @@ def run(ctx):
             ctx.merge(col)
     finally:
         sched.restore_instances()
+        _urwid_restore()
     for spec in specs[:3]:
         ctx.sample(dict(harness=spec["name"], method=spec["method"], main=spec["main"], procs=spec["procs"]))
     if not ctx.opts.get("harness") and ctx.opts.get("smoke", "1") != "0":
@@ -617,3 +678,4 @@ def replay(ctx, case):
         judge(ctx, spec, ch, s, model, tty, st, case)
     finally:
         sched.restore_instances()
+        _urwid_restore()
